@@ -1,6 +1,7 @@
 #!/usr/bin/env python3
 """Write seeded/INDEX.md from seeded/*/meta.json (which check catches which independently written change)."""
 import glob, json, os
+ROUNDS = (1, 2, 3, 4, 5, 6)
 V = os.path.dirname(os.path.dirname(os.path.abspath(__file__)))
 rows = []
 for mp in sorted(glob.glob(os.path.join(V, "seeded", "*", "meta.json"))):
@@ -11,6 +12,8 @@ for mp in sorted(glob.glob(os.path.join(V, "seeded", "*", "meta.json"))):
     own = det.get(f"{m['breaks_property']}:quick", {})
     first = own.get("first_line", "") if own.get("verdict") == "CAUGHT" else next((v["first_line"] for v in det.values() if v["verdict"] == "CAUGHT"), "")
     need = " ".join(m.get("needs_to_manifest", "").split())[:160]
+    if m.get("neutralised_by"):
+        caught, missed, first = ["(neutralised: the demonstration passes on the current tree)"], [], ""
     rows.append((m["id"], m["breaks_property"], ", ".join(caught) or "-", ", ".join(missed) or "-", first.split(":")[0] if first else "", need))
 with open(os.path.join(V, "seeded", "INDEX.md"), "w") as f:
     f.write("# Independently written breaking changes (sub-agents saw only the property text and a scratch worktree)\n\n")
@@ -21,19 +24,19 @@ with open(os.path.join(V, "seeded", "INDEX.md"), "w") as f:
     n = len(rows); c = sum(1 for r in rows if r[2] != "-")
     f.write(f"\n{c} of {n} changes are caught by at least one registered quick check.\n")
     # per round (ids -1..3 = round 1, -4..6 = round 2, ...) and property: caught by the property's own check / by any check
-    f.write("\n## Summary per round (own check / any check, of 3)\n\n| property | " + " | ".join(f"round {k}" for k in (1, 2, 3, 4)) + " |\n|---|---|---|---|---|\n")
+    f.write("\n## Summary per round (own check / any check, of 3)\n\n| property | " + " | ".join(f"round {k}" for k in ROUNDS) + " |\n|---|" + "---|" * len(ROUNDS) + "\n")
     props = sorted({r[1] for r in rows})
-    tot = {k: [0, 0, 0] for k in (1, 2, 3, 4)}
+    tot = {k: [0, 0, 0] for k in ROUNDS}
     for pid in props:
         cells = []
-        for k in (1, 2, 3, 4):
+        for k in ROUNDS:
             rs = [r for r in rows if r[1] == pid and (int(r[0].split("-")[1]) - 1) // 3 + 1 == k]
             own = sum(1 for r in rs if pid in r[2].split(", "))
             anyc = sum(1 for r in rs if r[2] != "-")
             tot[k][0] += own; tot[k][1] += anyc; tot[k][2] += len(rs)
             cells.append(f"{own} / {anyc}" if rs else "-")
         f.write(f"| {pid} | " + " | ".join(cells) + " |\n")
-    f.write("| **all** | " + " | ".join(f"{tot[k][0]} / {tot[k][1]} of {tot[k][2]}" for k in (1, 2, 3, 4)) + " |\n")
+    f.write("| **all** | " + " | ".join(f"{tot[k][0]} / {tot[k][1]} of {tot[k][2]}" for k in ROUNDS) + " |\n")
     un = [r[0] for r in rows if r[2] == "-"]
     f.write(f"\nNot caught by any check that was run against them: {', '.join(un) or 'none'}.\n")
 print(open(os.path.join(V, "seeded", "INDEX.md")).read()[-600:])
